@@ -1,12 +1,11 @@
 (* Proofs about Model/RRPlace.v, part 2 (part 1: Proofs/RRPlaceProofs.v).
-     place_complete             what each entry object holds (see the statement)
-     place_reads_name           an RRIP reader gets rr_name back from the NM entries it sees
-     place_complete_sl_partial  ... and the symlink target, when a CE entry exists or nothing went to ce_entries,
-                                under no_dot_names (the guard of C08_symlink_roundtrip)
-     assign_first_fit / first_fit_assign / place_first_pass_iff   no CE entry <-> first_fit i
-     first_fit_symlink          first_fit in closed form: uncut SL entry fits and (what the loop kept) + rest fits
-     place_total                curr_dr_len + 28 <= 254: RockRidge.new never raises
-     place_ce_iff_partial       without symlink: CE entry present <-> continuation part non-empty *)
+     place_complete        what each entry object holds (see the statement); without CE entry ce_entries is empty
+     place_reads_name      an RRIP reader gets rr_name back from the NM entries it sees
+     place_reads_target    ... and the symlink target, for EVERY non-empty target (no guard any more)
+     assign_first_fit / first_fit_assign / place_first_pass_iff   no CE entry <-> first_fit i, i.e. the static
+                           lengths of all entries, the SL entry uncut, fit: before_sl + sl_uncut + after_sl <= 254
+     place_total           curr_dr_len + 28 <= 254: RockRidge.new never raises
+     place_ce_iff          CE entry present <-> continuation part non-empty (symlink or not) *)
 From Coq Require Import ZArith List Bool Lia ZifyBool.
 From PV.Base Require Import Prim.
 From PV.Model Require Import Codec RREntries RRWalk RRPlace.
@@ -40,7 +39,7 @@ Theorem place_complete i r : place i = Some r -> 0 <= p_dr_len i ->
   placed_as (p_parent i) (pl_record dr) (pl_record ce) 0 /\
   (xorb (re_record dr) (re_record ce) = p_reloc i /\ re_record dr && re_record ce = false) /\
   others_empty dr /\ others_empty ce /\ ce_record ce = None /\
-  (ce_record dr = None -> entries_list ce = map E_SL (sl_records ce) /\ nm_records ce = []) /\
+  (ce_record dr = None -> entries_list ce = []) /\
   (nonempty (target_of i) = false -> sl_records dr = [] /\ sl_records ce = []).
 Proof.
   intros H H0. destruct (place_pass i r H H0) as (hc & ws & nm_d & nm_c & sl_d & sl_c & F & _).
@@ -57,9 +56,9 @@ Proof.
   split; [rewrite <- C6; destruct (w_re ws) as [[]|]; split; reflexivity|].
   split; [repeat split|]. split; [repeat split|]. split; [reflexivity|].
   split.
-  - intros Hce. destruct hc; [discriminate Hce|]. destruct (f_noce _ _ _ _ _ _ _ _ _ F eq_refl) as ((N1 & N2 & N3 & N4 & N5 & N6 & N7 & N8) & -> & _).
-    split; [|reflexivity]. rewrite side_list. unfold pickb. rewrite !pick_noce by assumption.
-    cbn [opt_list flag_list is_some map app]. rewrite app_nil_r. reflexivity.
+  - intros Hce. destruct hc; [discriminate Hce|].
+    destruct (f_noce _ _ _ _ _ _ _ _ _ F eq_refl) as ((N1 & N2 & N3 & N4 & N5 & N6 & N7 & N8) & -> & -> & _).
+    rewrite side_list. unfold pickb. rewrite !pick_noce by assumption. reflexivity.
   - intros Ht. pose proof (f_sl _ _ _ _ _ _ _ _ _ F) as S. rewrite Ht in S. exact S.
 Qed.
 
@@ -94,23 +93,21 @@ Proof.
   - destruct (f_noce _ _ _ _ _ _ _ _ _ F eq_refl) as (_ & -> & _). cbn [flat_map]. exact J.
 Qed.
 
-(* the symlink target: needs the CE entry (or nothing in ce_entries), and no name beginning with '.' *)
-Theorem place_complete_sl_partial i r t : place i = Some r -> 0 <= p_dr_len i ->
-  p_target i = Some t -> t <> [] ->
-  is_some (ce_record (pl_dr r)) = true \/ sl_records (pl_ce r) = [] ->
-  LongNames.no_dot_names t = true -> read_target r = t.
+(* the symlink target: every non-empty target is read back exactly *)
+Theorem place_reads_target i r t : place i = Some r -> 0 <= p_dr_len i ->
+  p_target i = Some t -> t <> [] -> read_target r = t.
 Proof.
-  intros H H0 Ht Hne Hce Hnd. destruct (place_pass i r H H0) as (hc & ws & nm_d & nm_c & sl_d & sl_c & F & _).
+  intros H H0 Ht Hne. destruct (place_pass i r H H0) as (hc & ws & nm_d & nm_c & sl_d & sl_c & F & _).
   assert (Tg : target_of i = t) by (unfold target_of; rewrite Ht; reflexivity).
   assert (Tn : nonempty (target_of i) = true) by (rewrite Tg; destruct t; [contradiction|reflexivity]).
-  destruct (sl_facts _ _ _ _ _ _ _ _ _ F) as (_ & _ & V). specialize (V Tn). rewrite Tg in V.
+  destruct (sl_facts _ _ _ _ _ _ _ _ _ F) as (_ & _ & V & _). specialize (V Tn). rewrite Tg in V.
   assert (E : sl_of (visible r) = sl_d ++ sl_c).
   { unfold visible, sl_of. rewrite flat_map_app. fold (sl_of (entries_list (pl_dr r))).
     rewrite (f_dr _ _ _ _ _ _ _ _ _ F), (f_ce _ _ _ _ _ _ _ _ _ F) in *. rewrite sl_of_side.
     cbn [side_entries ce_record sl_records] in *. destruct hc; cbn [is_some] in *.
     - fold (sl_of (entries_list (side_entries i ws false nm_c sl_c None))). rewrite sl_of_side. reflexivity.
-    - destruct Hce as [Hce| ->]; [discriminate Hce|]. reflexivity. }
-  unfold read_target. rewrite E, V. apply LongNamesProofs.sl_roundtrip; [lia|exact Hnd].
+    - destruct (f_noce _ _ _ _ _ _ _ _ _ F eq_refl) as (_ & _ & -> & _). reflexivity. }
+  unfold read_target. rewrite E, V. apply LongNamesProofs.sl_roundtrip_all; [lia|exact Hne].
 Qed.
 
 (* ---- Theorem 4: when is no continuation entry needed ---- *)
@@ -119,9 +116,9 @@ Proof. destruct b; cbn; lia. Qed.
 
 Lemma noce_sums i c0 r ws nm_d nm_c sl_d sl_c : facts i false c0 r ws nm_d nm_c sl_d sl_c ->
   cur_sl i c0 ws nm_d = before_sl i - p_dr_len i + c0 /\
-  pl_len r = cur_sl i c0 ws nm_d + sl_lens sl_d + after_sl i.
+  pl_len r = cur_sl i c0 ws nm_d + sl_uncut i + after_sl i.
 Proof.
-  intros F. destruct (f_noce _ _ _ _ _ _ _ _ _ F eq_refl) as ((N1 & N2 & N3 & N4 & N5 & N6 & N7 & N8) & _ & _).
+  intros F. destruct (f_noce _ _ _ _ _ _ _ _ _ F eq_refl) as ((N1 & N2 & N3 & N4 & N5 & N6 & N7 & N8) & _ & _ & _ & SU).
   destruct (f_created _ _ _ _ _ _ _ _ _ F) as (C1 & C2 & C3 & C4 & C5 & C6 & C7 & C8).
   destruct (f_nm _ _ _ _ _ _ _ _ _ F) as (_ & _ & NL). specialize (NL eq_refl).
   pose proof (f_len _ _ _ _ _ _ _ _ _ F) as L. unfold cur_sl in *. unfold before_sl, after_sl.
@@ -136,13 +133,7 @@ Theorem assign_first_fit i r : assign i false (p_dr_len i) = Some r -> 0 <= p_dr
 Proof.
   intros A H0. destruct (assign_inv _ _ _ _ A H0) as (ws & nm_d & nm_c & sl_d & sl_c & F).
   destruct (noce_sums _ _ _ _ _ _ _ _ F) as [B L]. pose proof (f_bound0 _ _ _ _ _ _ _ _ _ F eq_refl) as Hb.
-  pose proof (f_sl _ _ _ _ _ _ _ _ _ F) as S. pose proof (f_cur _ _ _ _ _ _ _ _ _ F) as C.
-  unfold first_fit, ALLOWED_DR_SIZE in *. replace (before_sl i - p_dr_len i + p_dr_len i) with (before_sl i) in B by lia.
-  destruct (nonempty (target_of i)).
-  - destruct S as (cel4 & s5 & E & Z). rewrite (Z eq_refl), B in E. rewrite B in C.
-    destruct (sl_stage_spec _ _ _ _ _ _ E C) as (_ & X & _). cbn [fst] in X.
-    unfold sl_in_dr. rewrite E. destruct s5 as [cur cel]. cbn [fst] in X. lia.
-  - destruct S as [-> _]. unfold sl_lens in L. cbn [map sumz] in L. lia.
+  unfold first_fit, ALLOWED_DR_SIZE in *. lia.
 Qed.
 
 Lemma nm_stage_fwd name cur cel : name <> [] -> cur + len_nm name <= ALLOWED_DR_SIZE ->
@@ -170,14 +161,20 @@ Proof.
   assert (T : exists sd sc l, (if nonempty (target_of i)
                  then sl_stage false (target_of i) (before_sl i, 0) = Some ((sd, sc), (before_sl i + l, 0))
                  else sd = [] /\ sc = [] /\ l = 0) /\ 0 <= l /\ before_sl i + l + after_sl i <= 254).
-  { assert (0 <= before_sl i) by (unfold before_sl; lia).
-    unfold first_fit, ALLOWED_DR_SIZE in Hf. destruct (nonempty (target_of i)).
-    - unfold sl_in_dr in Hf. destruct (sl_stage false (target_of i) (before_sl i, 0)) as [[[sd sc] [cur cel]]|] eqn:E;
-        [|discriminate Hf].
-      destruct (sl_stage_spec _ _ _ _ _ _ E ltac:(assumption)) as (_ & X1 & X2 & _). cbn [fst snd] in X1, X2.
-      pose proof (sl_lens_nonneg sd). exists sd, sc, (cur - before_sl i).
-      replace (before_sl i + (cur - before_sl i)) with cur by lia. replace cel with 0 by lia.
-      split; [reflexivity|]. lia.
+  { assert (Hb0 : 0 <= before_sl i) by (unfold before_sl; lia).
+    assert (Ha : 26 <= after_sl i) by (unfold after_sl; change (len_tf TF_FLAGS) with 26; lia).
+    unfold first_fit, sl_uncut, ALLOWED_DR_SIZE in Hf. destruct (nonempty (target_of i)) eqn:Et; cbn [opt_len] in Hf.
+    - pose proof (uncut_len (target_of i)) as UL.
+      pose proof (LongNamesProofs.comps_size_nonneg (LongNames.sl_components (target_of i))) as UN.
+      destruct (sl_stage_some false (target_of i) (before_sl i, 0) Hb0 ltac:(right; cbn [fst]; unfold ALLOWED_DR_SIZE; lia))
+        as ([[sd sc] [cur cel]] & E).
+      destruct (sl_stage_spec _ _ _ _ _ _ E Hb0) as (_ & X1 & X2 & _ & _ & _ & _ & X5). cbn [fst snd] in *.
+      assert (Hne : target_of i <> []) by (destruct (target_of i); [discriminate Et|discriminate]).
+      assert (H8 : before_sl i + 8 < ALLOWED_DR_SIZE) by (unfold ALLOWED_DR_SIZE; lia).
+      destruct (X5 eq_refl Hne H8) as [_ X6].
+      exists sd, sc, (len_sl (LongNames.split_slash (target_of i))).
+      replace (before_sl i + len_sl (LongNames.split_slash (target_of i))) with cur by lia.
+      assert (Hcel : cel = 0) by lia. rewrite Hcel in E. split; [exact E|]. lia.
     - exists [], [], 0. repeat split; lia. }
   destruct T as (sd & sc & l & TS & Tl & Tb). unfold before_sl, after_sl in Tb.
   unfold assign. rewrite put_if_fwd by (cbn [fst]; unfold ALLOWED_DR_SIZE; lia). cbn [fst snd].
@@ -213,31 +210,9 @@ Proof.
     intros Hf. destruct (first_fit_assign i Hv H0 Hf) as (r' & E). congruence.
 Qed.
 
-(* closed form of first_fit with a symlink: the uncut SL entry must pass the test of _new_symlink, and what the
-   loop then really kept in the record (sl_in_dr <= the uncut length: RRPlaceCases.first_pass_truncates) plus
-   the remaining entries must fit *)
-Theorem first_fit_symlink i : 0 <= p_dr_len i -> nonempty (target_of i) = true ->
-  (first_fit i = true <->
-   before_sl i + len_sl (LongNames.split_slash (target_of i)) <= ALLOWED_DR_SIZE /\
-   exists l, sl_in_dr i = Some l /\ before_sl i + l + after_sl i <= ALLOWED_DR_SIZE).
-Proof.
-  intros H0 Ht. destruct (len_consts (p_v i)) as (L1 & L2 & L3 & L4 & L5 & L6 & L7).
-  pose proof (opt_len_nonneg (p_first i) _ L1). pose proof (opt_len_nonneg (is_v109 (p_v i)) _ L2).
-  assert (0 <= opt_len (nonempty (p_name i)) (len_nm (p_name i)))
-    by (apply opt_len_nonneg; unfold len_nm; pose proof (zlen_nonneg (p_name i)); lia).
-  assert (Hb : 0 <= before_sl i) by (unfold before_sl; lia).
-  unfold first_fit. rewrite Ht. unfold sl_in_dr.
-  pose proof (sl_stage_no_ce (target_of i) (before_sl i) 0 Hb) as N.
-  destruct (sl_stage false (target_of i) (before_sl i, 0)) as [[[d c] [cur cel]]|] eqn:E.
-  - split.
-    + intros Hf. split; [apply N; discriminate|]. eexists. split; [reflexivity|]. unfold ALLOWED_DR_SIZE in *. lia.
-    + intros (_ & l & El & Hl). apply some_inv in El. subst l. unfold ALLOWED_DR_SIZE in *. lia.
-  - split; [discriminate|]. intros (Hc & _). exfalso. apply N in Hc. congruence.
-Qed.
-(* ... and without symlink: the static lengths of all entries fit *)
-Theorem first_fit_plain i : nonempty (target_of i) = false ->
-  (first_fit i = true <-> before_sl i + after_sl i <= ALLOWED_DR_SIZE).
-Proof. intros Ht. unfold first_fit. rewrite Ht. unfold ALLOWED_DR_SIZE. lia. Qed.
+(* first_fit is a closed form: the static lengths of all entries, the SL entry uncut *)
+Theorem first_fit_closed i : first_fit i = true <-> before_sl i + sl_uncut i + after_sl i <= ALLOWED_DR_SIZE.
+Proof. unfold first_fit. lia. Qed.
 
 (* ---- RockRidge.new never raises behind the guard of DirectoryRecord._rr_new ---- *)
 Lemma nm_stage_some name s : exists res, nm_stage true name s = Some res.
@@ -322,18 +297,19 @@ Proof. destruct w as [[]|]; destruct d; cbn; lia. Qed.
 Lemma wl_sum w l : wl w true l + wl w false l = opt_len (is_some w) l.
 Proof. destruct w as [[]|]; cbn; lia. Qed.
 
-Theorem place_ce_iff_partial i r : place i = Some r -> 0 <= p_dr_len i -> nonempty (target_of i) = false ->
+Theorem place_ce_iff i r : place i = Some r -> 0 <= p_dr_len i ->
   (ce_record (pl_dr r) = None <-> entries_list (pl_ce r) = []).
 Proof.
-  intros H H0 Ht. split.
-  - intros Hc. destruct (place_complete i r H H0) as (_ & _ & _ & _ & _ & _ & _ & _ & _ & _ & _ & _ & X & Y).
-    destruct (X Hc) as [-> _]. destruct (Y Ht) as [_ ->]. reflexivity.
+  intros H H0. split.
+  - intros Hc. destruct (place_complete i r H H0) as (_ & _ & _ & _ & _ & _ & _ & _ & _ & _ & _ & _ & X & _).
+    exact (X Hc).
   - intros He. destruct (place_pass i r H H0) as (hc & ws & nm_d & nm_c & sl_d & sl_c & F & P1 & Hl & Hv & _).
     rewrite (f_dr _ _ _ _ _ _ _ _ _ F). cbn [side_entries ce_record]. destruct hc; [exfalso|reflexivity].
     destruct (len_consts (p_v i)) as (L1 & L2 & L3 & L4 & L5 & L6 & L7).
     assert (A0 : area (p_v i) (pl_ce r) = 0) by (unfold area; rewrite He; reflexivity).
     rewrite (f_ce _ _ _ _ _ _ _ _ _ F), side_area in A0. cbn [ce_size] in A0.
-    pose proof (f_sl _ _ _ _ _ _ _ _ _ F) as S. rewrite Ht in S. destruct S as [-> ->].
+    destruct (sl_facts _ _ _ _ _ _ _ _ _ F) as (SM & _ & _ & SU). rewrite sl_lens_app in SU.
+    apply Forall_app in SM. pose proof (sl_lens_nonneg _ (proj2 SM)) as Sc.
     destruct (f_nm _ _ _ _ _ _ _ _ _ F) as (J & NF & _).
     assert (Nn : forall l, 0 <= nm_lens l).
     { intros l. unfold nm_lens. apply sumz_nonneg. apply Forall_forall. intros x Hx. apply in_map_iff in Hx.
@@ -345,7 +321,6 @@ Proof.
     pose proof (wl_nonneg (w_px ws) false _ L3). pose proof (wl_nonneg (w_tf ws) false _ L4).
     pose proof (wl_nonneg (w_cl ws) false _ L5). pose proof (wl_nonneg (w_pl ws) false _ L5).
     pose proof (wl_nonneg (w_re ws) false _ L6). pose proof (wl_nonneg (w_er ws) false _ L7).
-    unfold sl_lens in A0. cbn [map sumz] in A0.
     destruct (f_created _ _ _ _ _ _ _ _ _ F) as (C1 & C2 & C3 & C4 & C5 & C6 & C7 & C8).
     pose proof (wl_sum (w_sp ws) len_sp) as W1. pose proof (wl_sum (w_rr ws) len_rr) as W2.
     pose proof (wl_sum (w_px ws) (px_len (p_v i))) as W3. pose proof (wl_sum (w_tf ws) (len_tf TF_FLAGS)) as W4.
@@ -353,16 +328,15 @@ Proof.
     pose proof (wl_sum (w_pl ws) len_link) as W7. pose proof (wl_sum (w_er ws) (er_len (p_v i))) as W8.
     rewrite C1 in W1. rewrite C2 in W2. rewrite C3 in W3. rewrite C4 in W4. rewrite C5 in W5. rewrite C6 in W6.
     rewrite C7 in W7. rewrite C8 in W8. cbn [opt_len] in W3, W4.
-    pose proof (f_len _ _ _ _ _ _ _ _ _ F) as FL. unfold cur_sl, sl_lens in FL. cbn [map sumz] in FL.
+    pose proof (f_len _ _ _ _ _ _ _ _ _ F) as FL. unfold cur_sl in FL.
     assert (Hf : first_fit i = true).
-    { apply first_fit_plain; [exact Ht|]. unfold before_sl, after_sl, ALLOWED_DR_SIZE, len_ce in *. lia. }
+    { apply first_fit_closed. unfold before_sl, after_sl, ALLOWED_DR_SIZE, len_ce in *. lia. }
     destruct (first_fit_assign i Hv H0 Hf) as (r' & E). rewrite (P1 eq_refl) in E. discriminate E.
 Qed.
 
 Print Assumptions place_complete.
 Print Assumptions place_reads_name.
-Print Assumptions place_complete_sl_partial.
+Print Assumptions place_reads_target.
 Print Assumptions place_first_pass_iff.
-Print Assumptions first_fit_symlink.
 Print Assumptions place_total.
-Print Assumptions place_ce_iff_partial.
+Print Assumptions place_ce_iff.
